@@ -50,8 +50,16 @@ async def _requester(rng, desc):
         # the client is a responder too and grants leases of its own to the peer: they must not count as leases
         # it has received
         ckw['lease_publisher'] = ScriptedLeasePublisher([tuple(x) for x in desc['own_publisher']])
-    rw = RawWorld(rng, 'c', link_kind=desc['link'], frag=desc['frag'], client_kwargs=ckw)
-    await rw.start()
+    role = desc.get('role', 'c')
+    if role == 'c':
+        rw = RawWorld(rng, 'c', link_kind=desc['link'], frag=desc['frag'], client_kwargs=ckw)
+        await rw.start()
+    else:
+        # the server as the lease-honouring requester: it may not send a request before the client's first LEASE either
+        from ..rawpeer import setup_frame
+        rw = RawWorld(rng, 's', link_kind=desc['link'], frag=desc['frag'], server_kwargs=ckw)
+        await rw.start(send_setup=False)
+        rw.peer.send(setup_frame(lease=bool(desc.get('own_publisher'))))
     world = rw.world
     loop = asyncio.get_event_loop()
     t0 = loop.time()
@@ -265,7 +273,8 @@ def gen_requester(rng):
         own = [[rng.choice([0.0, 0.0, 0.3]), rng.choice([1, 5, 100]), rng.choice([1000, 60000])]
                for _ in range(rng.choice([1, 2]))]
     return {'link': rng.choice(ANY_LINK), 'frag': rng.choice([None, None, 64, 100]),
-            'queue_size': rng.choice([0, 0, 1, 3]), 'timeline': timeline, 'tail': 2.0, 'own_publisher': own}
+            'queue_size': rng.choice([0, 0, 1, 3]), 'timeline': timeline, 'tail': 2.0, 'own_publisher': own,
+            'role': rng.choice('ccs')}
 
 
 def run_reconnect(idx, rng):
